@@ -153,3 +153,40 @@ def _cr(tag, resname, klass_key, defnames):
 
 _cr("amino", "GLY", "pdb2pqr.aa:GLY", ["GLY", "WAT", "RA"])
 _cr("unknown", "XYZ", "pdb2pqr.residue:Residue", ["GLY", "WAT", "RA"])
+
+
+# ---------------------------------------------------------------- blank chain ids with TER records: one letter per segment
+# A file without chain ids but with TER records has as many chains as TER-separated segments (+ what follows the last
+# TER): each segment's residues get that segment's own letter, so that termini are assigned per segment (C02).  Concrete
+# list shape (no loop cut: the letter is string.ascii_uppercase[count], a string indexed by the TER count).
+def BREC(nm, seq):
+    return Named(nm, Obj("pdb2pqr.pdb:ATOM", chain_id=Const(""), res_seq=Const(seq), ins_code=Const(""), res_name=Enum("GLY", "LYS")))
+
+
+def _blank(tag, recs, ens):
+    contract(
+        "pdb2pqr.biomolecule:Biomolecule.__init__", ["C02", "C07"],
+        params={"self": Obj("pdb2pqr.biomolecule:Biomolecule", g_done=Const(0), g_ok=Const(True), g_have_last=Const(False),
+                            g_last_chain=Const(""), g_last_seq=Const(0), g_last_ins=Const("")),
+                "pdblist": Items(*recs), "definition": Obj("Definition")},
+        requires=[],
+        ensures=["self.g_ok"] + ens,
+        stubs={"pdb2pqr.biomolecule:Biomolecule.create_residue": "stub_create_residue"},
+        name=f"Biomolecule.__init__.blank_chains.{tag}",
+        native=False,
+        budget=5000,
+    )
+
+
+_T = lambda nm: Named(nm, Obj("pdb2pqr.pdb:TER"))
+# two segments, ONE TER between them (the second segment is closed by END, as many writers do)
+_blank("one_ter", [BREC("b0", 1), BREC("b1", 2), _T("t0"), BREC("b2", 1), BREC("b3", 2), Named("e0", Obj("pdb2pqr.pdb:END"))],
+       ["b0.chain_id == 'A' and b1.chain_id == 'A' and b2.chain_id == 'B' and b3.chain_id == 'B'",
+        "len(self.chains) == 2 and len(self.chains[0].residues) == 2 and len(self.chains[1].residues) == 2",
+        "self.g_done == 4"])
+# each segment closed by its own TER
+_blank("two_ter", [BREC("b0", 1), _T("t0"), BREC("b1", 1), _T("t1"), Named("e0", Obj("pdb2pqr.pdb:END"))],
+       ["b0.chain_id == 'A' and b1.chain_id == 'B'", "len(self.chains) == 2", "self.g_done == 2"])
+# no TER at all: a single chain, ids stay blank (nothing to tell segments apart)
+_blank("no_ter", [BREC("b0", 1), BREC("b1", 2), Named("e0", Obj("pdb2pqr.pdb:END"))],
+       ["b0.chain_id == '' and b1.chain_id == ''", "len(self.chains) == 1", "self.g_done == 2"])
